@@ -66,7 +66,7 @@ class MultiPaxosNode(Entity):
         super().__init__(name)
         self._network = network
         self._peers: list[MultiPaxosNode] = list(peers) if peers else []
-        self._state_machine = state_machine or KVStateMachine()
+        self._state_machine = state_machine if state_machine is not None else KVStateMachine()
         self._leader_lease_timeout = leader_lease_timeout
         self._heartbeat_interval = heartbeat_interval
 
